@@ -150,3 +150,377 @@ def get(pid):
     if pid not in REGISTRY:
         raise SystemExit("no check registered for %s" % pid)
     return REGISTRY[pid]()
+
+
+# ------------------------------------------------------------------ stateless helpers
+
+def batches(ops, size, prefix, n=4):
+    return [History("%s%d" % (prefix, i), n, ops[j:j + size]) for i, j in enumerate(range(0, len(ops), size))]
+
+
+def text_hex(s):
+    return s.encode("utf-8").hex() if s else "-"
+
+
+def hex_text(h):
+    return "" if h == "-" else bytes.fromhex(h).decode("utf-8")
+
+
+USIZE_MAX = 2 ** 64 - 1
+
+
+# ------------------------------------------------------------------ C17
+
+C17_ALPHABET = ["a", "Z", "1", "0", "9", "+", "-", " ", "α", "ρ", "\U0001d711", "é"]
+
+
+def label_of_text_class(t):
+    """classification of a label text by the property's own wording:
+    'valid' (must round-trip), 'reject' (must be Err), None (no claim)"""
+    if t == "":
+        return None
+    if t[0] == "α":
+        tail = t[1:]
+        if tail.isascii() and tail.isdigit():
+            n = int(tail)
+            if n > USIZE_MAX:
+                return "reject"
+            return "valid" if str(n) == tail else None       # leading zeros: accepted, not canonical
+        body = tail[1:] if tail.startswith("+") else tail
+        if body and body.isascii() and body.isdigit():
+            return "reject" if int(body) > USIZE_MAX else None   # '+5': accepted by Rust's integer grammar
+        return "reject"                                      # malformed index
+    if " " in t:
+        return None
+    if len(t) > 8:
+        return "reject"
+    return "valid"
+
+
+def canonical_label(l):
+    if l[0] == "G":
+        return int(l[1:], 16) != 0x3b1
+    if l[0] == "A":
+        return int(l[1:]) <= USIZE_MAX
+    cps = [int(x, 16) for x in l[1:].split(".")]
+    body = list(cps)
+    while body and body[-1] == 0x20:
+        body.pop()
+    return len(cps) == 8 and 2 <= len(body) and 0x20 not in body and body[0] != 0x3b1
+
+
+class C17(Prop):
+    pid = "C17"
+    ops = {"LABELRT", "LABELRTL", "LABELPARSE", "LABELPRINT", "NEW", "ADD", "SCRIPT", "KID", "BIND"}
+    stay_in_limits = False
+    rule = ("every string of length 0..3 over the 12-symbol alphabet [a Z 1 0 9 + - space α ρ U+1D711 é] (exhaustive), "
+            "random strings up to length 10 and boundary index texts are parsed and printed back; canonical and "
+            "non-canonical label values are printed and parsed back; edges bound from script text are looked up under "
+            "the constructed label.  A case is non-trivial if the text/label has more than one character or a "
+            "multi-byte character or is an index; distinct = distinct input")
+    assumptions = ["'alpha followed by +5 / leading zeros / more than 8 characters' are accepted by Rust's integer grammar; the property makes no claim about them (DESIGN.md section 13)"]
+    exhaustive = True
+
+    def generate(self, rng, tier):
+        ops = []
+        al = C17_ALPHABET
+        texts = [""]
+        for a in al:
+            texts.append(a)
+            for b in al:
+                texts.append(a + b)
+                for c in al:
+                    texts.append(a + b + c)
+        texts += ["α18446744073709551615", "α18446744073709551616", "α99999999999999999999999", "α+5", "α05", "α00",
+                  "α-1", "α1ρ", "α1+2", "α", "α+", "abcdefgh", "abcdefghi", "ρρρρρρρρ", "ρρρρρρρρρ",
+                  "\U0001d711\U0001d711\U0001d711\U0001d711\U0001d711\U0001d711\U0001d711\U0001d711", "α1234567", "α12345678",
+                  "hello", "+bar", "foo", "x", "ρ", "σ", "π", "\U0001d711"]
+        nrand = 3000 if tier == "quick" else 300000
+        for _ in range(nrand):
+            k = 4 + rng.below(7)
+            texts.append("".join(rng.pick(al) for _ in range(k)))
+        for t in texts:
+            ops.append("LABELRT %s" % text_hex(t))
+        labels = []
+        for a in al:
+            labels.append(gen.lab_greek(ord(a)))
+        for n in [0, 1, 9, 10, 99, 2 ** 32, 2 ** 63, USIZE_MAX]:
+            labels.append(gen.lab_alpha(n))
+        nsl = [x for x in al if x != " "]
+        for k in range(1, 9):
+            for _ in range(40 if tier == "quick" else 2000):
+                body = "".join(rng.pick(nsl) for _ in range(k))
+                labels.append(gen.lab_str(body))
+        # non-canonical values (malformed stream: results only compared with the model)
+        labels += [gen.lab_str("a b"), gen.lab_str(" ab"), gen.lab_str("α7"), gen.lab_str("a"), gen.lab_str("")]
+        for l in labels:
+            ops.append("LABELRTL %s" % l)
+        hs = batches(ops, 400, "c17-")
+        # an edge bound under a parsed name is found under the same name built directly
+        kid_ops = ["NEW g 4", "ADD g 0", "ADD g 1"]
+        for name, lab in [("ρ", gen.lab_greek(0x3c1)), ("foo", gen.lab_str("foo")), ("α7", gen.lab_alpha(7)),
+                          ("x", gen.lab_greek(0x78)), ("\U0001d711", gen.lab_greek(0x1d711)), ("héllo", gen.lab_str("héllo"))]:
+            kid_ops.append("SCRIPT g %s" % text_hex("BIND(0, 1, %s);" % name))
+            kid_ops.append("KID g 0 %s" % lab)
+        hs.append(History("c17-kid", 8, kid_ops))
+        return hs
+
+    def oracle(self, h, il):
+        seen = getattr(self, "_inj", None)
+        if seen is None:
+            seen = self._inj = {}
+        for i, (op, line) in enumerate(zip(h.ops, il)):
+            t = op.split()
+            res = line.split(" -> ", 1)[1]
+            if t[0] == "LABELRT":
+                txt = hex_text(t[1])
+                cls = label_of_text_class(txt)
+                if cls == "valid":
+                    p = res.split()
+                    if p[0] != "ok" or hex_text(p[2]) != txt:
+                        return {"reason": "valid label text %r does not round-trip" % txt, "index": i,
+                                "expected": "ok <label> %s" % t[1], "observed": res}
+                    other = seen.setdefault(p[1], txt)
+                    if other != txt:
+                        return {"reason": "distinct texts %r and %r give the same label" % (other, txt), "index": i,
+                                "expected": "distinct labels", "observed": res}
+                elif cls == "reject" and res != "err":
+                    return {"reason": "label text %r must be rejected" % txt, "index": i, "expected": "err", "observed": res}
+            elif t[0] == "LABELRTL" and canonical_label(t[1]):
+                p = res.split()
+                if len(p) != 3 or p[1] != "ok" or p[2] != t[1]:
+                    return {"reason": "canonical label %s does not round-trip through text" % t[1], "index": i,
+                            "expected": "<text> ok %s" % t[1], "observed": res}
+            elif t[0] == "KID" and h.hid == "c17-kid":
+                if res != "some 1":
+                    return {"reason": "edge bound under a parsed name is not found under the constructed label %s" % t[3],
+                            "index": i, "expected": "some 1", "observed": res}
+        return None
+
+    def nontrivial(self, h, il):
+        keys = set()
+        for op in h.ops:
+            t = op.split()
+            if t[0] == "LABELRT" and len(hex_text(t[1])) > 1:
+                keys.add(op)
+            elif t[0] == "LABELRTL" and not t[1].startswith("G"):
+                keys.add(op)
+        return keys
+
+
+# ------------------------------------------------------------------ C15 / C16
+
+def hx_bytes(r):
+    return bytes.fromhex(data_bytes(r))
+
+
+def hx_from_vec(bs):
+    if len(bs) <= 8:
+        return "B%s:%d" % ((bs + bytes(8 - len(bs))).hex(), len(bs))
+    return "V" + bs.hex()
+
+
+def hex_shapes(rng, maxlen=10, extra_random=0):
+    shapes = []
+    for n in range(maxlen + 1):
+        variants = [bytes(range(1, n + 1)), bytes(rng.below(256) for _ in range(n))]
+        for _ in range(extra_random):
+            variants.append(bytes(rng.below(256) for _ in range(n)))
+        for bs in variants:
+            shapes.append("V" + bs.hex())
+            if n <= 8:
+                shapes.append("B%s:%d" % ((bs + bytes(8 - n)).hex(), n))
+                shapes.append("B%s:%d" % ((bs + bytes(0xF0 | rng.below(16) for _ in range(8 - n))).hex(), n))
+    return shapes
+
+
+def rust_slice(bs, kind, s, e):
+    """reference semantics of indexing a byte slice: bytes or None (panic)"""
+    n = len(bs)
+    if kind == "RFULL":
+        return bs
+    if kind == "RF":
+        return bs[s:] if s <= n else None
+    if kind in ("RI", "RTI"):
+        if e == USIZE_MAX:
+            return None
+        e += 1
+    if kind in ("RT", "RTI"):
+        s = 0
+    return bs[s:e] if s <= e <= n else None
+
+
+def usz(x):
+    return "MAX" if x == USIZE_MAX else str(x)
+
+
+class C15(Prop):
+    pid = "C15"
+    ops = {"HEXALL", "HEXIDX", "HEXBYTEAT", "HEXTAIL", "HEXRANGE", "HEXEQ", "HEXFROMI64", "HEXFROMF64",
+           "HEXFROMSTR", "HEXFROMVEC", "HEXFROMSLICE"}
+    stay_in_limits = False
+    exhaustive = True
+    rule = ("byte strings of every length 0..10 (fixed and random content) in the heap representation and, up to 8 "
+            "bytes, in the inline representation with zero and with non-zero padding; every index 0..12 and usize::MAX; "
+            "every (start,end) in (0..12 + MAX)^2 for the six range kinds (exhaustive over these shapes); i64/f64 round "
+            "trips on boundary and random values; from_str on formatted and corrupted texts.  Non-trivial = distinct "
+            "(shape, accessor, arguments) whose byte string is non-empty")
+
+    def generate(self, rng, tier):
+        shapes = hex_shapes(rng, 10, 0 if tier == "quick" else 6)
+        idxs = list(range(13)) + [USIZE_MAX]
+        ops = []
+        for sh in shapes:
+            ops.append("HEXALL %s" % sh)
+            for i in idxs:
+                ops.append("HEXIDX %s %s" % (sh, usz(i)))
+                ops.append("HEXBYTEAT %s %s" % (sh, usz(i)))
+                ops.append("HEXTAIL %s %s" % (sh, usz(i)))
+                ops.append("HEXRANGE %s RF %s 0" % (sh, usz(i)))
+                ops.append("HEXRANGE %s RT 0 %s" % (sh, usz(i)))
+                ops.append("HEXRANGE %s RTI 0 %s" % (sh, usz(i)))
+            ops.append("HEXRANGE %s RFULL 0 0" % sh)
+            for s in idxs:
+                for e in idxs:
+                    ops.append("HEXRANGE %s R %s %s" % (sh, usz(s), usz(e)))
+                    ops.append("HEXRANGE %s RI %s %s" % (sh, usz(s), usz(e)))
+        for a in shapes[::3]:
+            for b in shapes[::5]:
+                ops.append("HEXEQ %s %s" % (a, b))
+        for z in [0, 1, -1, 42, 2 ** 63 - 1, -2 ** 63, 256, -256, 2 ** 32, -2 ** 32 - 1] + \
+                 [rng.next() - 2 ** 63 for _ in range(200 if tier == "quick" else 20000)]:
+            ops.append("HEXFROMI64 %d" % z)
+        for w in [0, 1, 0x7ff0000000000000, 0xfff0000000000000, 0x7ff8000000000001, 0x400921fb54442d18, 2 ** 64 - 1] + \
+                 [rng.next() for _ in range(200 if tier == "quick" else 20000)]:
+            ops.append("HEXFROMF64 %016x" % w)
+        for _ in range(300 if tier == "quick" else 30000):
+            n = rng.below(12)
+            bs = bytes(rng.below(256) for _ in range(n))
+            txt = "-".join(("%02X" if rng.chance(1, 2) else "%02x") % b for b in bs)
+            k = rng.below(6)
+            if k == 0 and txt:
+                txt = txt[:-1]                  # odd length
+            elif k == 1:
+                txt = txt + "g"                 # not a hex digit
+            elif k == 2:
+                txt = "--" + txt + "-"
+            ops.append("HEXFROMSTR %s" % text_hex(txt))
+            ops.append("HEXFROMVEC %s" % (bs.hex() or "-"))
+            ops.append("HEXFROMSLICE %s" % (bs.hex() or "-"))
+        return batches(ops, 3000, "c15-")
+
+    def expected(self, t):
+        """expected result text from the byte string alone, or None (no claim)"""
+        k = t[0]
+        if k in ("HEXFROMI64", "HEXFROMF64", "HEXFROMSTR", "HEXFROMVEC", "HEXFROMSLICE"):
+            if k == "HEXFROMI64":
+                z = int(t[1])
+                return "B%s:8 back=%d" % ((z % 2 ** 64).to_bytes(8, "big").hex(), z)
+            if k == "HEXFROMF64":
+                return "B%s:8 back=%s" % (t[1], t[1])
+            if k == "HEXFROMSTR":
+                txt = hex_text(t[1]).replace("-", "")
+                try:
+                    if len(txt) % 2:
+                        raise ValueError
+                    bs = bytes(int(txt[i:i + 2], 16) if all(c in "0123456789abcdefABCDEF" for c in txt[i:i + 2]) else int("zz", 16)
+                               for i in range(0, len(txt), 2))
+                except ValueError:
+                    return "err"
+                return "ok " + hx_from_vec(bs)
+            bs = bytes.fromhex("" if t[1] == "-" else t[1])
+            return hx_from_vec(bs)
+        bs = hx_bytes(t[1])
+        arg = lambda s: USIZE_MAX if s == "MAX" else int(s)
+        if k == "HEXALL":
+            pr = "-".join("%02X" % b for b in bs) if bs else "--"
+            i64 = str(int.from_bytes(bs, "big", signed=True)) if len(bs) == 8 else "err"
+            f64 = bs.hex() if len(bs) == 8 else "err"
+            return "len=%d bytes=%s print=%s empty=%d vec=%s i64=%s f64=%s rt=%s" % (
+                len(bs), bs.hex(), text_hex(pr), 1 if not bs else 0, bs.hex(), i64, f64, hx_from_vec(bs))
+        if k in ("HEXIDX", "HEXBYTEAT"):
+            i = arg(t[2])
+            return str(bs[i]) if i < len(bs) else "PANIC"
+        if k == "HEXTAIL":
+            s = arg(t[2])
+            return hx_from_vec(bs[s:]) if s <= len(bs) else "PANIC"
+        if k == "HEXRANGE":
+            r = rust_slice(bs, t[2], arg(t[3]), arg(t[4]))
+            return "PANIC" if r is None else "[%s]" % r.hex()
+        if k == "HEXEQ":
+            return "1" if bs == hx_bytes(t[2]) else "0"
+        return None
+
+    def oracle(self, h, il):
+        for i, (op, line) in enumerate(zip(h.ops, il)):
+            t = op.split()
+            if t[0] not in self.ops:
+                continue
+            want = self.expected(t)
+            got = line.split(" -> ", 1)[1]
+            if want is not None and want != got:
+                return {"reason": "%s depends on more than the byte string / differs from the byte slice" % t[0],
+                        "index": i, "expected": want, "observed": got}
+        return None
+
+    def nontrivial(self, h, il):
+        return {op for op in h.ops if op.split()[0] in self.ops and op.split()[0] in ("HEXALL", "HEXIDX", "HEXBYTEAT", "HEXTAIL", "HEXRANGE", "HEXEQ")
+                and len(hx_bytes(op.split()[1])) > 0}
+
+
+class C16(Prop):
+    pid = "C16"
+    ops = {"HEXCONCAT"}
+    stay_in_limits = False
+    exhaustive = True
+    rule = ("a.concat(b) for every pair of lengths 0..12 x 0..12, receiver and argument in the heap representation and "
+            "(up to 8 bytes) in the inline representation with zero and non-zero padding (exhaustive over these shapes), "
+            "plus random pairs; non-trivial = both operands non-empty; distinct = distinct operand pair")
+    KNOWN = "class=inline-spill: inline receiver of used length l<8 with l+len(b)>8 yields its 8 array bytes (padding included) followed by b"
+
+    def generate(self, rng, tier):
+        shapes = hex_shapes(rng, 12, 0 if tier == "quick" else 3)
+        ops = []
+        for a in shapes:
+            for b in shapes:
+                ops.append("HEXCONCAT %s %s" % (a, b))
+        return batches(ops, 3000, "c16-")
+
+    @staticmethod
+    def in_known_class(a, b):
+        if not a.startswith("B"):
+            return False
+        l = int(a.split(":")[1])
+        return l < 8 and l + len(hx_bytes(b)) > 8
+
+    def oracle(self, h, il):
+        known_hit = None
+        for i, (op, line) in enumerate(zip(h.ops, il)):
+            t = op.split()
+            if t[0] != "HEXCONCAT":
+                continue
+            got = line.split(" -> ", 1)[1].split()
+            if got[0] == "PANIC":
+                return {"reason": "concat panicked", "index": i, "expected": "bytes(a)+bytes(b)", "observed": "PANIC"}
+            want = hx_bytes(t[1]) + hx_bytes(t[2])
+            if got[1] != "a=" + t[1] or got[2] != "b=" + t[2]:
+                return {"reason": "concat changed an operand", "index": i, "expected": "a,b unchanged", "observed": " ".join(got)}
+            if hx_bytes(got[0]) != want:
+                known = (self.in_known_class(t[1], t[2])
+                         and hx_bytes(got[0]) == bytes.fromhex(t[1][1:17]) + hx_bytes(t[2]))
+                f = {"reason": "concat(%s, %s) is not the concatenation of the byte strings" % (t[1], t[2]),
+                     "index": i, "expected": want.hex(), "observed": got[0], "known": known}
+                if not known:
+                    return f
+                known_hit = known_hit or f      # a listed finding never hides a different violation
+        return known_hit
+
+    def known_finding(self, h, il, finding):
+        return self.KNOWN if finding.get("known") else None
+
+    def nontrivial(self, h, il):
+        return {op for op in h.ops if op.startswith("HEXCONCAT ")
+                and len(hx_bytes(op.split()[1])) and len(hx_bytes(op.split()[2]))}
+
+
+REGISTRY.update({c.pid: c for c in [C15, C16, C17]})
